@@ -84,13 +84,14 @@ class _Q:
 
 
 def _mk_kv(allow):
-    from nostr_relay.storage import kv
-    st = object.__new__(kv.LMDBStorage)
-    st.log = logging.getLogger("x")
-    st.authenticator = _Authn(allow)
-    st.writer_queue = _Q()
+    """the LMDB storage as every other harness builds it (harness/_webcommon.Store: real add_event, stubbed leaves)"""
     from envmodel import kvworld
-    st.db = kvworld.new_env()   # add_event looks the id up before queueing (duplicate check)
+    from envmodel.fake_asyncio import Loop
+    from harness import _webcommon as C
+    loop = Loop()
+    C.install(loop)
+    st = C.Store(loop, auth=_Authn(allow))
+    st.db = kvworld.new_env()
     st.effects = []
 
     async def validate(event, config):
@@ -105,6 +106,13 @@ def _mk_kv(allow):
     st.validate_event = validate
     st.notify_all_connected = notify_all
     st.notify_other_processes = notify_other
+
+    class _QView:
+        @property
+        def items(self_):
+            return st.queued()
+
+    st.writer_queue_view = _QView()
     return st
 
 
@@ -148,8 +156,9 @@ def ob_save_gate(allow: bool) -> str:
         if "save" not in st.authenticator.calls:
             return "save permission never asked"
         bad = [e for e in st.effects if e != "validated"]
-        if bad or (PARAM == 0 and st.writer_queue.items):
-            return "save denied but effects happened: %r %r" % (bad, getattr(st, "writer_queue", _Q()).items)
+        queued = st.queued() if PARAM == 0 else []
+        if bad or queued:
+            return "save denied but effects happened: %r %r" % (bad, queued)
         return "ok"
     # allowed: LMDB goes on to store; SQL reaches the (absent) engine behind the gate
     if PARAM == 0 and outcome != "accepted":
